@@ -472,14 +472,16 @@ NsCfgs2 ==
   \cup (IF Big THEN {RulesCfg("trace", << NsNotExists(<<RFld("f")>>) >>, <<>>), RulesCfg("span", << Cond(FF, "=", "string", S("map[]"), <<>>) >>, <<>>),
                      NestedCfg("span", << NsNotExists(<<NFld("f", "a")>>) >>, <<Fld("f")>>), DynCfg(<<RFld("f")>>, FALSE)}
         ELSE {})
-NsA == IF Big THEN {C("map"), C("arr"), C("emap"), Nil} ELSE {C("map"), C("arr")}
+NsA == IF Big THEN {C("map"), C("arr"), Nil} ELSE {C("map"), C("arr")}
 NsB == IF Big THEN {Absent, S("a"), C("map"), C("nest"), Nil} ELSE {Absent, S("a"), C("map")}
 NsTraces2 == {[spans |-> << [f |-> a, g |-> Absent], [f |-> b, g |-> Absent] >>, root |-> r] : a \in NsA, b \in NsB, r \in (IF Big THEN {0, 1, 2} ELSE {0, 1})}
 NsVecs == {[cfg |-> c, trace |-> t, fam |-> "ns"] : c \in NsCfgs1, t \in NsTraces1}
           \cup {[cfg |-> c, trace |-> t, fam |-> "ns"] : c \in NsCfgs2, t \in NsTraces2}
-\* every path that carries a document for a single span; for two spans the quick bound has one path per ingestion class
-NsPaths(t) == IF Big \/ Len(t.spans) = 1 THEN AllPaths
+\* every path for a single span (Carries leaves the eight that are not OTLP); for two spans the quick bound has
+\* one path per decoder, one of them forwarded, the thorough bound every decoder directly and two of them forwarded
+NsPaths(t) == IF Len(t.spans) = 1 THEN AllPaths
               ELSE {<<"jsonEvent", FALSE>>, <<"jsonBatch", FALSE>>, <<"mpBatch", FALSE>>, <<"mpEvent", TRUE>>}
+                   \cup (IF Big THEN {<<"mpEvent", FALSE>>, <<"jsonBatch", TRUE>>} ELSE {})
 
 \* paths and msgpack widths per family: the single-span family has every
 \* width and every path; the multi-span families one width per Go type
